@@ -142,6 +142,10 @@ class CallHooks(object):
         return [N('InvocationStatementNode', invocation=inv, _lead=lead)]
 
 
+# a second constant group (prebuild fixtures only, where constants are written Group::NAME): some of its names are those
+# of the first group, with another type and value
+CONSTS2 = [('MAX_N', 'string', 'big'), ('RATIO', 'integer', '3'), ('SMALL', 'integer', '1'), ('GREETING', 'boolean', 'true')]
+
 OAL_TY = {'integer': 'int', 'string': 'str', 'boolean': 'bool', 'real': 'real'}
 
 
@@ -182,6 +186,9 @@ def gen_graph(ints, for_prebuild=False, logical_calls=False):
                 allow_return=kind != 'derived')
         g.enums = ('Color', [e for e in ENUM if e != 'None'])
         g.consts = [('Limits', n, OAL_TY[ty]) for n, ty, _v in CONSTS]
+        if for_prebuild:
+            g.consts = g.consts + [('Sizes', n, OAL_TY[ty]) for n, ty, _v in CONSTS2]
+            g.self_relates = True
         g.const_style = 'namespaced' if for_prebuild else 'plain'
         g.arrays = for_prebuild
         g.refattrs = for_prebuild
@@ -233,6 +240,20 @@ def gen_graph(ints, for_prebuild=False, logical_calls=False):
                     N('BinaryOperationNode', left=g.expr(env, 'bool', 1), operator=t.choice(['and', 'or']), right=cexpr))
                 stmts.append(N('AssignmentNode', variable_access=g.var(bv), expression=e))
                 env.set(bv, {'ty': 'bool'})
+        if for_prebuild and g.self_cls and t.flag():
+            # the first mention of the running instance is as a participant of a relate / unrelate statement inside a
+            # nested block; the body goes on using it after that block has ended
+            fc, tc, rel, ph = t.choice([r for r in oalprog.RELATES if g.self_cls in (r[0], r[1])])
+            other = tc if fc == g.self_cls else fc
+            x = env.fresh(other.lower() + '_')
+            env.set(x, {'ty': 'inst', 'cls': other, 'nonempty': False})
+            a, b = ('self', x) if t.flag() else (x, 'self')
+            link = N('RelateNode' if t.flag() else 'UnrelateNode', from_variable_name=a, to_variable_name=b, rel_id='R%d' % rel,
+                     phrase=("'%s'" % ph) if ph else '')
+            stmts.append(N('SelectFromNode', cardinality='any', variable_name=x, key_letter=other))
+            stmts.append(N('IfNode', expression=N('UnaryOperationNode', operator='not_empty', operand=g.var(x)), block=block([link]),
+                           elif_list=N('ElIfListNode', children=[]), else_clause=None))
+            features.add('self-first-in-nested-relate')
         stmts += g.stmts(env, 2, False, top=True, minimum=1)
         if kind == 'derived' and t.flag():
             # early out: the value assigned before a bare return is the value of the attribute
@@ -263,15 +284,20 @@ def gen_graph(ints, for_prebuild=False, logical_calls=False):
                 # the result depends on every integer variable still in scope: a callee that disturbed them shows
                 for v in env.vars(lambda i: i['ty'] == 'int')[:4]:
                     e = N('BinaryOperationNode', left=e, operator='+', right=g.var(v))
-                for pn, pt in shadowed:
+                # ... and on every integer parameter, read after whatever the body called
+                for pn, pt in c.params:
                     if pt == 'int':
                         e = N('BinaryOperationNode', left=e, operator='+', right=N('ParamAccessNode', variable_name=pn, _kw='param'))
             elif c.ret == 'str':
                 for v in env.vars(lambda i: i['ty'] == 'str')[:3]:
                     e = N('BinaryOperationNode', left=e, operator='+', right=g.var(v))
-                for pn, pt in shadowed:
+                for pn, pt in c.params:
                     if pt == 'str':
                         e = N('BinaryOperationNode', left=e, operator='+', right=N('ParamAccessNode', variable_name=pn, _kw='param'))
+            elif c.ret == 'bool':
+                for pn, pt in c.params:
+                    if pt == 'bool':
+                        e = N('BinaryOperationNode', left=e, operator='==', right=N('ParamAccessNode', variable_name=pn, _kw='param'))
             stmts.append(N('ReturnNode', expression=e))
         else:
             k = t.pick(3)
@@ -299,8 +325,11 @@ def oalsyn_caser(kwcase):
     return caser(kwcase)
 
 
-def diagram_with(callables, enum_order, kwcase=None):
+def diagram_with(callables, enum_order, kwcase=None, second_group=False):
     D, ix = base_diagram()
+    if second_group:
+        D['constants'].append({'name': 'Sizes', 'parent': ['pkg', 2],
+                               'items': [{'name': n, 'type': ty, 'value': v} for n, ty, v in CONSTS2]})
     D['types'].append({'name': 'Color', 'kind': 'enum', 'enumerators': list(ENUM), 'parent': ['pkg', 2]})
     D['constants'].append({'name': 'Limits', 'parent': ['pkg', 2],
                            'items': [{'name': n, 'type': ty, 'value': v} for n, ty, v in CONSTS]})
